@@ -138,7 +138,9 @@ private:
     }
 
     ~node() override {
-      for (unsigned i = pop_idx; i < push_idx; i += step_size) {
+      // both indexes can be incremented beyond max_idx, but only indexes below max_idx refer to entries
+      const unsigned end = std::min<unsigned>(push_idx.load(std::memory_order_relaxed), max_idx);
+      for (unsigned i = pop_idx.load(std::memory_order_relaxed); i < end; i += step_size) {
         traits::delete_value(entries[i % entries_per_node].value.load(std::memory_order_relaxed).get());
       }
     }
